@@ -249,6 +249,28 @@ def run(tier, replay=None):
                               "unchanged": now == "".join(parts[fn] for fn in sorted(parts)),
                               "files": {fn: open(os.path.join(d, fn)).read() for fn in sorted(parts)}})
                 nmulti += 1
+    # ... and with every definition in defs.mro and the top-level call alone in invoke.mro,
+    # the declaring file named before the invoking one and the other way round
+    for q in progs:
+        src = q.get("src") or mro.render(q, stage_lang="comp", stage_src="s")
+        i = src.rfind("\ncall ")
+        if i < 0:
+            continue
+        parts = {"defs.mro": src[:i + 1], "invoke.mro": '@include "defs.mro"\n' + src[i:]}
+        for label, flags, info in refcorpus.ops(q):
+            for oi, order in enumerate((["defs.mro", "invoke.mro"], ["invoke.mro", "defs.mro"])):
+                d = os.path.join(wd, "%s_%d" % (q["name"], len(cases)))
+                os.makedirs(d)
+                for fn, text in parts.items():
+                    open(os.path.join(d, fn), "w").write(text)
+                r = subprocess.run([mrobin, "edit", "-w"] + flags + order, cwd=d, env=dict(os.environ, MROPATH=d),
+                                   stdout=subprocess.PIPE, stderr=subprocess.PIPE, text=True, timeout=120)
+                now = "".join(open(os.path.join(d, fn)).read() for fn in sorted(parts))
+                cases.append({"id": "%s:%s:two%d" % (q["name"], label, oi), "dir": d, "rc": r.returncode, "err": r.stderr[-400:],
+                              "prog": q["name"], "info": info, "flags": flags + order, "src": src, "top": "invoke.mro",
+                              "unchanged": now == "".join(parts[fn] for fn in sorted(parts)),
+                              "files": {fn: open(os.path.join(d, fn)).read() for fn in sorted(parts)}})
+                nmulti += 1
     with open(os.path.join(wd, "b.ndjson"), "w") as f:
         for c in cases:
             f.write(json.dumps({"Id": c["id"], "Dir": c["dir"], "Top": c.get("top", "p.mro")}) + "\n")
@@ -298,6 +320,16 @@ def run(tier, replay=None):
         except Exception as e:
             add(c, "cannot-interpret", "the edited program cannot be converted back: %r" % (e,), edited)
             continue
+        # what a pipeline named as a top-level call returns is in use: it keeps every output
+        for tname in c["info"].get("tops") or []:
+            o0 = [x["n"] for x in mro.callable_of(byname[c["prog"]], tname)["outs"]]
+            try:
+                o1 = [x["n"] for x in mro.callable_of(ep, tname)["outs"]]
+            except Exception:
+                o1 = []
+            gone = [x for x in o0 if x not in o1]
+            if gone:
+                add(c, "top-call-output-removed", "pipeline %s is named as a top-level call and lost its output(s) %s" % (tname, ", ".join(gone)), edited)
         sem_in.append(ep)
         todo.append((c, ep, edited))
     for n_ in sorted(set(notes))[:5]:
